@@ -154,6 +154,12 @@ def h_iterate(ctx, case):
             b = a + 1 + ctx.choice('glen', nr - a)
             blk, r0, r1 = it.get_chunk(a, b)
             check_block(ctx, blk, dense, list(range(a, b)), 'get_chunk')
+        elif what == 'batch_any':
+            # any row list: empty, with repeated rows, in any order
+            n = ctx.choice('batch_len', nr + 2)
+            rows = [ctx.choice(f'batch_row[{i}]', nr) for i in range(n)]
+            blk = it.get_batch(list(rows))
+            check_block(ctx, blk, dense, rows, 'get_batch (any list)')
         else:
             # arbitrary duplicate-free row list, in the requested order
             rows = [r for r in ctx.perm('batch', nr)][:1 + ctx.choice(
@@ -256,6 +262,9 @@ HARNESSES = [
                {'shape': [2, 2], 'enc': 'csr', 'what': 'iter',
                 'dtype': 'int64'},
                {'shape': [3, 2], 'enc': 'csr', 'what': 'batch'},
+               {'shape': [2, 1], 'enc': 'csr', 'what': 'batch_any'},
+               {'shape': [2, 1], 'enc': 'dense', 'what': 'batch_any'},
+               {'shape': [2, 1], 'enc': 'csc', 'what': 'batch_any'},
                {'shape': [3, 2], 'enc': 'dense', 'what': 'batch'},
                {'shape': [2, 2], 'enc': 'csc', 'what': 'batch'},
                {'shape': [3, 2], 'enc': 'csr', 'what': 'chunk'},
